@@ -88,8 +88,9 @@ func init() {
 			stride, nm, nr, maxc = 1, 100000, 20000, 20000000
 		}
 		sets := []CaseSet{genCorpusAllEntries(maxc), genSingleField(r, stride), genMalformed(r, nm),
-			genRandomStreams(r, "random-streams", nr, fullKnobs(), ""), genChunkedMalformed(r, nm/4), genSizeExtremes(r, nr/3)}
-		return sets, "every corpus file through all six entry points; single-field definitions (every known message x listed field + one unlisted, 25 base-type bytes x sizes around the valid ones x both byte orders, sampled 1/" + strconv.Itoa(stride) + " in this tier) each followed by data; mutated and random byte strings through random entry points and read schedules; structured random streams; size-extreme definitions (counts and byte totals around 8- and 16-bit boundaries). Oracle: no panic, no hang (10 s per case), outcome class, bytes consumed and full dump equal the model's. distinct = distinct result lines that got past header and file_id", false
+			genRandomStreams(r, "random-streams", nr, fullKnobs(), ""), genChunkedMalformed(r, nm/4), genSizeExtremes(r, nr/3),
+			genEveryFileType()}
+		return sets, "every corpus file through all six entry points; single-field definitions (every known message x listed field + one unlisted, 25 base-type bytes x sizes around the valid ones x both byte orders, sampled 1/" + strconv.Itoa(stride) + " in this tier) each followed by data; mutated and random byte strings through random entry points and read schedules; structured random streams; size-extreme definitions (counts and byte totals around 8- and 16-bit boundaries); a short well-formed file for each of the 256 file_id.type values through Decode, DecodeChained and DecodeHeaderAndFileID. Oracle: no panic, no hang (10 s per case), outcome class, bytes consumed and full dump equal the model's. distinct = distinct result lines that got past header and file_id", false
 	}
 	propPost["C01"] = postNoPanic
 
@@ -510,6 +511,23 @@ func genChunkedMalformed(r *rng, n int) CaseSet {
 			}
 		}
 		cs.Cases = append(cs.Cases, decCase(dc.entry, dc.opts, spec, "-", dc.data))
+	}
+	return cs
+}
+
+// genEveryFileType: a short well-formed file for every value of file_id.type, through the entry
+// points that attach the typed container.
+func genEveryFileType() CaseSet {
+	cs := CaseSet{Name: "every-file-type"}
+	for t := 0; t < 256; t++ {
+		w := &sw{}
+		w.Write(fileIdRecs(byte(t), byte(t%2)))
+		w.define(defn{local: 1, global: 20, fields: []fdef{{3, 1, 2}}})
+		w.data(1, []byte{70})
+		data := frame(w.Bytes(), defaultFrame())
+		for _, e := range []string{"decode", "chained", "headerfid"} {
+			cs.Cases = append(cs.Cases, decCase(e, "000", "-", "-", data))
+		}
 	}
 	return cs
 }
